@@ -5,6 +5,9 @@ Part 1 (this section): the index-kind type system on the kernel IR into which th
 translated on every run (`tools/translate/kernels.py` → `SkNet/Generated/KernelIR.lean`).
 -/
 import SkNet.Lemmas.Kinds
+import SkNet.Lemmas.TerminateSeen
+import SkNet.Lemmas.TerminateLouvain
+import SkNet.Lemmas.ModularityFit
 
 namespace SkNet.C17
 open SkNet SkNet.IR
@@ -72,5 +75,105 @@ example : rowScatterBad.wellKinded = false ∧ rowScatterBad.ill = [2] := by dec
     (`data[indices[j]]` with `indices[j] = 2 ≥ nnz = 1`) out of bounds. -/
 example : (match exec 50 rowScatterBad.body (oneEdge.state (fun _ _ => 0)) with
     | .err (.oob 2) => true | _ => false) = true := by decide
+
+/-! ## 2. Termination: measures for the loops of the models -/
+
+/-- **propagation_terminates.**  `Propagation.fit` (model `SkNet.Vote.fit` of the repaired code: the loop stops
+    as soon as a configuration of labels comes back) terminates on **every** graph with non-negative weights —
+    directed or not —, for every seed vector, every node order and every `n_iter`, the default (unbounded)
+    included: `fitBound` = (number of nodes)^(number of updated nodes) + 1 evaluations of the loop test suffice,
+    because a sweep never invents a label and a configuration is never met twice before the loop stops. -/
+theorem propagation_terminates (c : Csr Rat) (hw : ∀ p, 0 ≤ c.data.getD p 0) (values : List Int)
+    (a : Vote.PropArgs) (hsig : Vote.SigmaOK a.sigma (Vote.instantiateVars values).2.length) (fuel : Nat)
+    (hf : Terminate.fitBound values a.sigma ≤ fuel) : Vote.fit c values a fuel ≠ none :=
+  Terminate.fit_terminates c hw values a hsig fuel hf
+
+/-- the directed 3-cycle 0 → 1 → 2 → 0 (the input on which the pinned code never returned, F18) -/
+def dicycle3 : Csr Rat :=
+  { nRow := 3, nCol := 3, indptr := #[0, 1, 2, 3], indices := #[1, 2, 0], data := #[1, 1, 1] }
+
+/-- non-vacuity, on the very input of F18: a single class of seeds (every node starts with its own label, every
+    node is updated), default `n_iter`; the labels oscillate with period 2 and the loop stops at the third test
+    of a configuration already seen, well inside the bound 3³ + 1 = 28. -/
+example : (∀ p, 0 ≤ dicycle3.data.getD p 0) ∧ Terminate.fitBound [0, 0, 0] none = 28 ∧
+    Vote.fit dicycle3 [0, 0, 0] {} 28 = some ([1, 2, 1], 3) := by
+  refine ⟨?_, by decide +kernel, by decide +kernel⟩
+  intro p
+  by_cases h : p < 3
+  · have : p = 0 ∨ p = 1 ∨ p = 2 := by omega
+    rcases this with rfl | rfl | rfl <;> decide +kernel
+  · have : dicycle3.data.getD p 0 = 0 := by
+      simp [dicycle3, Array.getD, show ¬ p < 3 from h]
+    rw [this]
+
+/-- The loop of the pinned code stopped only when a sweep changed nothing.  A loop of that shape does not
+    terminate on an orbit of period 2 (this is the mechanism of F18, kept as the witness of the repair). -/
+def untilFixed (step : List Int → List Int) : Nat → List Int → Option (List Int)
+  | 0, _ => none
+  | fuel+1, l => if step l = l then some l else untilFixed step fuel (step l)
+
+theorem untilFixed_diverges (step : List Int → List Int) (a b : List Int) (hab : a ≠ b)
+    (h1 : step a = b) (h2 : step b = a) : ∀ fuel, untilFixed step fuel a = none ∧ untilFixed step fuel b = none := by
+  intro fuel
+  induction fuel with
+  | zero => exact ⟨rfl, rfl⟩
+  | succ f ih =>
+    constructor
+    · simp only [untilFixed, h1, if_neg (Ne.symm hab)]
+      exact ih.2
+    · simp only [untilFixed, h2, if_neg hab]
+      exact ih.1
+
+/-- on the directed 3-cycle one sweep of the vote over all nodes maps `[1,1,2] ↦ [1,2,1] ↦ [2,1,2]`… : the
+    configurations `[1,2,1]` and `[2,1,2]` are exchanged, so `untilFixed` never returns there -/
+example : ∀ fuel, untilFixed (fun l => Vote.voteUpdate dicycle3 l [0, 1, 2]) fuel [1, 2, 1] = none :=
+  fun fuel => (untilFixed_diverges _ [1, 2, 1] [2, 1, 2] (by decide) (by decide +kernel) (by decide +kernel) fuel).1
+
+/-- **optimize_core_terminates.**  The `while not stop` loop of the Louvain kernel (model
+    `SkNet.Modularity.optimizeCore`, exact arithmetic) terminates for every tolerance `tol ≥ 0` — the default
+    `1e-3` and the boundary value `0` included: a pass that does not stop the loop raises the objective `Q` by
+    `increase_pass > tol ≥ 0`, so no label vector is met twice and `K^n + 1` passes suffice (`n` nodes, `K` cluster
+    slots).  This is the statement left open as `SkNet.C06.optimize_core_terminates_full`. -/
+theorem optimize_core_terminates (g : Modularity.Graph Rat) (hg : Modularity.GraphOK g) (res tol : Rat)
+    (htol : 0 ≤ tol) (K : Nat) (st : Modularity.St Rat) (hinv : Modularity.CoreInv g K st) (fuel : Nat)
+    (hf : K ^ g.n + 1 ≤ fuel) : Modularity.optimizeCore g res tol fuel st ≠ none :=
+  Terminate.optimizeCore_terminates g hg res tol htol K st hinv fuel hf
+
+/-- two nodes joined by one edge, degree weights -/
+def pairLevel : Modularity.Level :=
+  { n := 2, rows := [[(1, 1)], [(0, 1)]], outW := [1/2, 1/2], inW := [1/2, 1/2] }
+
+theorem pairLevel_ok : Modularity.LevelOK pairLevel where
+  lenR := by decide
+  lenO := by decide
+  lenI := by decide
+  cols := by
+    intro i hi
+    have hi' : i < 2 := hi
+    have : i = 0 ∨ i = 1 := by omega
+    rcases this with rfl | rfl <;> decide +kernel
+  sym := by
+    intro u v hu hv
+    have hu' : u < 2 := hu
+    have hv' : v < 2 := hv
+    have h1 : u = 0 ∨ u = 1 := by omega
+    have h2 : v = 0 ∨ v = 1 := by omega
+    rcases h1 with rfl | rfl <;> rcases h2 with rfl | rfl <;> decide +kernel
+
+/-- non-vacuity: the hypotheses hold of the singletons on the one-edge graph with `tol = 0`, and the kernel
+    indeed returns within the bound 2² + 1 = 5 (both nodes end in one cluster) -/
+example : Modularity.optimizeCore pairLevel.graph 1 0 5
+      { labels := Modularity.arange 2, outCl := pairLevel.outW, inCl := pairLevel.inW, cw := tab 2 fun _ => 0 } ≠ none :=
+  optimize_core_terminates pairLevel.graph pairLevel_ok.graphOK 1 0 (le_refl 0) 2 _
+    (Modularity.coreInv_singletons pairLevel pairLevel_ok) 5 (by decide)
+
+/-- For a negative tolerance the statement is false: a pass that changes nothing has `increase_pass = 0 > tol`
+    and does not stop the loop (`Louvain(tol_optimization < 0)` is outside the valid parameters). -/
+theorem optimize_core_negative_tol_diverges (g : Modularity.Graph Rat) (res tol : Rat) (htol : tol < 0)
+    (st : Modularity.St Rat) (hfix : Modularity.corePass g res st = (st, 0)) (fuel : Nat) :
+    Modularity.optimizeCore g res tol fuel st = none := by
+  unfold Modularity.optimizeCore
+  rw [Terminate.coreLoop_negative_tol_diverges g res tol htol st hfix fuel]
+  rfl
 
 end SkNet.C17
